@@ -125,9 +125,13 @@ where
     std::thread::scope(|sc| {
         let solver_ref = &mut solver;
         let result = &result;
+        let sched_done = sched.clone();
         let h = sc.spawn(move || {
             let c = std::panic::catch_unwind(std::panic::AssertUnwindSafe(|| solver_ref.maximize()));
             *result.lock().unwrap() = Some(c);
+            if let Some(s) = &sched_done {
+                s.main_done.store(true, SeqCst);
+            }
         });
         if let Some(s) = &sched {
             let s2 = s.clone();
